@@ -435,6 +435,11 @@ func runSeq(p *core.Program, r *core.Report, queue bool) {
 				if !ok {
 					continue
 				}
+				// an element overwritten in place: no operation of the container does that
+				if ia, isIA := st.Addr.(*ssa.IndexAddr); isIA && isLoadOfField(ia.X, sl, "items") {
+					c.ob("AG1", p.FuncName(f), "overwrites an element of items", p.InstrPos(st), false, "an element of items is overwritten in place: the container no longer hands out what was put in")
+					continue
+				}
 				fa, ok := st.Addr.(*ssa.FieldAddr)
 				if !ok || !isFieldOf(fa, sl, "items") {
 					continue
